@@ -68,10 +68,12 @@ type item struct {
 type keySpec struct {
 	Key  int  `json:"key"`
 	Desc bool `json:"desc"`
-	Mode int  `json:"mode"` // 0 ThenWithTransformerFunctor, 1 ThenWithFieldName, 2 ThenWith(NewSimpleSortDescriptor), 3 ThenWith(NewFieldSortDescriptor)
+	// Mode: 0 ThenWithTransformerFunctor, 1 ThenWithFieldName, 2 ThenWith(NewSimpleSortDescriptor), 3 ThenWith(NewFieldSortDescriptor),
+	// 4 / 5: as 2 / 3, but handed over together with the neighbouring mode-4/5 descriptors in ONE ThenWith(d1, d2, ...) call
+	Mode int `json:"mode"`
 }
 
-var modeNames = [4]string{"fn", "field", "ThenWith(simple)", "ThenWith(field)"}
+var modeNames = [6]string{"fn", "field", "ThenWith(simple)", "ThenWith(field)", "ThenWith(..simple..)", "ThenWith(..field..)"}
 
 type sortCase struct {
 	// Wide: the int key K1 takes its four values from the extremes of int (MinInt, -1, 0, MaxInt)
@@ -370,7 +372,25 @@ func transformerFor[T any](key int, get func(T) rec) fpgo.TransformerFunctor[T, 
 
 func buildDescriptors[T any](spec []keySpec, get func(T) rec) fpgo.SortDescriptorsBuilder[T] {
 	b := fpgo.NewSortDescriptorsBuilder[T]()
-	for _, ks := range spec {
+	var batch []fpgo.SortDescriptor[T]
+	flush := func() {
+		if len(batch) > 0 {
+			b = b.ThenWith(batch...)
+			batch = nil
+		}
+	}
+	for i, ks := range spec {
+		if ks.Mode >= 4 {
+			if ks.Mode == 4 {
+				batch = append(batch, fpgo.NewSimpleSortDescriptor(transformerFor(ks.Key, get), !ks.Desc))
+			} else {
+				batch = append(batch, fpgo.NewFieldSortDescriptor[T](fieldNames[ks.Key], !ks.Desc))
+			}
+			if i == len(spec)-1 || spec[i+1].Mode < 4 {
+				flush()
+			}
+			continue
+		}
 		// a sibling stack is derived from the same prefix AFTER the real one (see below): a builder is a
 		// value, deriving another stack from a shared prefix must not change a stack derived earlier
 		prev := b
@@ -581,7 +601,7 @@ func genSpec(t *rapid.T, maxKeys int, withMode bool) []keySpec {
 	for i := range spec {
 		spec[i] = keySpec{Key: rapid.IntRange(0, 2).Draw(t, "key"), Desc: rapid.Bool().Draw(t, "desc")}
 		if withMode {
-			spec[i].Mode = rapid.IntRange(0, 3).Draw(t, "mode")
+			spec[i].Mode = rapid.IntRange(0, 5).Draw(t, "mode")
 		}
 	}
 	return spec
@@ -657,7 +677,7 @@ func propSecondType(t *rapid.T) {
 		c.Items[i].CopyOf = 0 // this part identifies elements by their unique id
 	}
 	for i := range c.Spec {
-		c.Spec[i].Mode = 1 + 2*(c.Spec[i].Mode%2) // field-name based modes only (1 or 3)
+		c.Spec[i].Mode = []int{1, 3, 5}[c.Spec[i].Mode%3] // field-name based modes only
 	}
 	in := c.recs()
 	// sort the first type too, so that both types are live in the same process
@@ -667,37 +687,57 @@ func propSecondType(t *rapid.T) {
 		}
 	}
 	in2 := make([]rec2, len(in))
+	in3 := make([]rec3, len(in))
 	for i, r := range in {
 		in2[i] = rec2{Tags: []string{"t"}, Pad: 1000 - i, K3: r.K3, ID: r.ID, K1: r.K1, K2: r.K2}
+		in3[i] = rec3{keys3: keys3{Lead: i, K2: r.K2, K1: r.K1, K3: r.K3}, ID: r.ID}
 	}
-	b := buildDescriptors(c.Spec, func(r rec2) rec { return rec{K1: r.K1, K2: r.K2, K3: r.K3, ID: r.ID} })
-	var got []rec2
+	checkOtherType(t, c, in, in2, func(r rec2) rec { return rec{K1: r.K1, K2: r.K2, K3: r.K3, ID: r.ID} }, "a second record type (same field names at other positions)")
+	checkOtherType(t, c, in, in3, func(r rec3) rec { return rec{K1: r.K1, K2: r.K2, K3: r.K3, ID: r.ID} }, "a record type whose key fields are promoted from an embedded struct")
+}
+
+// keys3 / rec3: the key fields live in an embedded struct and are promoted to the record (r.K1 is
+// r.keys3.K1): a field-name based descriptor names them like any other field of the record.
+type keys3 struct {
+	Lead int
+	K2   fpgo.ComparableString
+	K1   fpgo.ComparableOrdered[int]
+	K3   fpgo.ComparableOrdered[string]
+}
+
+type rec3 struct {
+	keys3
+	ID int
+}
+
+func checkOtherType[T any](t *rapid.T, c sortCase, in []rec, in2 []T, get func(T) rec, what string) {
+	b := buildDescriptors(c.Spec, get)
+	var got []T
 	p, stack := vlib.Try(func() { got = b.ToSortedList(in2...) })
 	vlib.S().Eval("descriptor-second-type")
-	desc := fmt.Sprintf("second-type|%s|n=%d", c.specString(true), len(in))
+	desc := fmt.Sprintf("%T|%s|n=%d", *new(T), c.specString(true), len(in))
 	if len(in) >= 2 {
 		vlib.S().NonTrivial("descriptor-second-type", desc)
 	}
 	key, msg := "", ""
 	switch {
 	case p != nil:
-		key, msg = "C19/descriptor/second-type-panic", fmt.Sprintf("sorting a second record type by [%s] panicked: %v\n%s", c.specString(true), p, firstFrames(stack))
+		key, msg = "C19/descriptor/second-type-panic", fmt.Sprintf("sorting %s by [%s] panicked: %v\n%s", what, c.specString(true), p, firstFrames(stack))
 	case len(got) != len(in2):
 		key, msg = "C19/descriptor/second-type", fmt.Sprintf("result has %d elements, input %d", len(got), len(in2))
 	default:
 		seen := map[int]bool{}
-		for i, g := range got {
+		for i, gt := range got {
+			g := get(gt)
 			if seen[g.ID] || g.ID < 0 || g.ID >= len(in) {
 				key, msg = "C19/descriptor/second-type", "result is not a permutation of the input"
 				break
 			}
 			seen[g.ID] = true
 			if i+1 < len(got) {
-				a := rec{K1: g.K1, K2: g.K2, K3: g.K3, ID: g.ID}
-				n := got[i+1]
-				bb := rec{K1: n.K1, K2: n.K2, K3: n.K3, ID: n.ID}
-				if lexCompare(c.Spec, a, bb) > 0 {
-					key, msg = "C19/descriptor/second-type", fmt.Sprintf("a second record type (same field names at other positions) sorted by [%s]: %v comes before %v", c.specString(true), a, bb)
+				bb := get(got[i+1])
+				if lexCompare(c.Spec, g, bb) > 0 {
+					key, msg = "C19/descriptor/second-type", fmt.Sprintf("%s sorted by [%s]: %v comes before %v", what, c.specString(true), g, bb)
 					break
 				}
 			}
